@@ -129,7 +129,7 @@ pub fn valid_src(big: bool) -> BoxedStrategy<Src> {
 
 pub fn dec_sched() -> BoxedStrategy<DecSched> {
     let chunk = prop_oneof![3 => 0u32..=3, 3 => 1u32..=16, 2 => 1u32..=300, 1 => 1u32..=70000];
-    let budget = prop_oneof![2 => 0u32..=3, 3 => 1u32..=40, 2 => 1u32..=600, 1 => 200u32..=40000, 2 => Just(u32::MAX)];
+    let budget = prop_oneof![2 => 0u32..=3, 3 => 1u32..=40, 2 => 1u32..=600, 2 => 250u32..=270, 1 => 200u32..=40000, 2 => Just(u32::MAX)];
     (proptest::collection::vec(chunk, 0..10), proptest::collection::vec(budget, 0..12)).prop_map(|(chunks, budgets)| DecSched { chunks, budgets }).boxed()
 }
 
